@@ -63,7 +63,7 @@ def coq_deps(vfile):
             src = open(os.path.join(COQ, f)).read()
         except OSError:
             continue
-        for m in re.finditer(r"From QV Require (?:Import |Export )?([^.]*(?:\.[A-Za-z_0-9]+)*)\.\s", src):
+        for m in re.finditer(r"From QV Require (?:Import|Export)?\s*(.*?)\.\s", src, flags=re.S):
             for name in m.group(1).split():
                 p = name.replace(".", "/") + ".v"
                 if os.path.exists(os.path.join(COQ, p)):
